@@ -81,6 +81,17 @@ def getDepth (d : List ((Nat × Nat) × Nat)) (k : Nat × Nat) : Nat :=
 def setDepth (d : List ((Nat × Nat) × Nat)) (k : Nat × Nat) (v : Nat) : List ((Nat × Nat) × Nat) :=
   (k, v) :: d.filter (·.1 != k)
 
+/-- every state stack of container `c` is empty.  The property ("keeps state push/pop balanced per container") requires it
+whenever `c` is destroyed and, for every container, at the end of the trace: a state that is pushed and never popped before
+its container goes away is an unbalanced push.  Checked by the driver at each PajeDestroyContainer line (`wfStep` itself keeps
+accepting such a line: use-after-destroy etc. go on being judged); `destroy_balanced_spec` (Props.lean) reads it on the trace. -/
+def balancedOn (d : List ((Nat × Nat) × Nat)) (c : Nat) : Bool :=
+  d.all (fun e => e.1.1 != c || getDepth d e.1 == 0)
+
+/-- how many states are still pushed on `c` (for the message only) -/
+def pushedOn (d : List ((Nat × Nat) × Nat)) (c : Nat) : Nat :=
+  (d.filter (·.1.1 == c)).foldl (fun acc e => acc + e.2) 0
+
 def useCont (s : WF) (ts c : Nat) : Except Why WF :=
   if ts < s.now then .error .timeDecreases
   else if s.dead.contains c then .error .useAfterDestroy
